@@ -59,9 +59,11 @@ def random_structure(rng: random.Random, dtype=F32):
         return S(rng.choice([2, 3, 4, 5]), dtype=dtype)
     if k < 0.45:
         return S(*rng.choice([(2, 3), (3, 2), (2, 2), (1, 3)]), dtype=dtype)
-    if k < 0.55:
+    if k < 0.50:
         n = rng.choice([2, 3])
         return [S(n, dtype=dtype), S(n, dtype=dtype)]
+    if k < 0.55:
+        return [S(2, 3, dtype=dtype), S(2, 3, dtype=dtype)]
     if k < 0.63:
         n = rng.choice([2, 3])
         return {'b': S(n, dtype=dtype), 'a': S(n, 2, dtype=dtype)}
@@ -442,6 +444,35 @@ def pat_block_nested(rng, s):
     return [col, diag]
 
 
+def pat_sandwich(rng, s):
+    """a pair that cancels, wrapped around block operators whose product is the identity:
+    [M, BlockDiag(D_i), BlockDiag(D_i⁻¹), Mᵀ] — the inner rewrite *creates* an identity mid-chain"""
+    if sub_structures(s) is None:
+        return None
+    outer = None
+    for _ in range(6):
+        outer = rng.choice([pat_moveaxis, pat_reshape])(rng, s)
+        if outer is not None and len(outer) == 2:
+            break
+        outer = None
+    if outer is None:
+        return None
+    mid = outer[0].out_structure()
+    subs = sub_structures(mid)
+    if subs is None:
+        return None
+    ds = []
+    for x in subs:
+        d = mk_diagonal(rng, x) or mk_diagonal_first(rng, x)
+        if d is None:
+            return None
+        ds.append(d)
+    a = BlockDiagonalOperator(rebuild_container(mid, ds))
+    b = BlockDiagonalOperator(rebuild_container(mid, [d.I for d in ds]))
+    inner = [a, b] if rng.random() < 0.5 else [b, a]
+    return [outer[0]] + inner + [outer[1]]
+
+
 def pat_identity(rng, s):
     return [IdentityOperator(s)]
 
@@ -452,7 +483,7 @@ def pat_scalars(rng, s):
 
 PATTERNS = [pat_inverse_pair, pat_lazy_inverse_pair, pat_rotations, pat_rot_hwp, pat_pol_hwp,
             pat_index, pat_pack, pat_reshape, pat_moveaxis, pat_block_diag_diag, pat_block_col_diag,
-            pat_block_single, pat_block_nested, pat_identity, pat_scalars]
+            pat_block_single, pat_block_nested, pat_sandwich, pat_identity, pat_scalars]
 
 
 def gen_chain(rng: random.Random, s, length: int, depth: int, p_pattern: float = 0.5):
